@@ -67,6 +67,12 @@ func (c *corr) flush() {
 	c.queue = c.queue[:0]
 }
 
+// honestFailure is what fatal panics with: a step that the harness performs honestly (set-up of a scenario,
+// an honest protocol run, an operation of the library on valid input) did not succeed.
+type honestFailure struct{ msg string }
+
+// fatal ends the run: an honest step failed. On the unchanged tree this never happens; when it does, the
+// library refuses (or breaks on) valid input, which main reports as a violation with the message as input.
 func fatal(format string, a ...any) {
-	panic(fmt.Sprintf("harness internal error: "+format, a...))
+	panic(honestFailure{fmt.Sprintf(format, a...)})
 }
